@@ -1,11 +1,13 @@
-// unit: delta — C01 (round trip, both engines), C16 (no more literals than textbook greedy); includes the patch and
-// checksum units so that every contract consumed here is discharged in the same run
+// unit: cli — `copia signature|delta|patch` wrappers (C20 hostile-file clause, C05 CLI clause)
 #![allow(unused_imports, unused_variables, dead_code, non_snake_case, unused_mut, unused_assignments)]
 use vstd::prelude::*;
 use vstd::arithmetic::div_mod::*;
 use std::io::{Read, Seek, SeekFrom, Write};
+use std::path::{Path, PathBuf};
 verus! {
 global size_of usize == 8;
+#[verifier::external_type_specification] #[verifier::external_body] pub struct ExPathBuf(PathBuf);
+#[verifier::external_type_specification] #[verifier::external_body] pub struct ExPath(Path);
 //@include lib/checksum_spec.rs
 //@include lib/checksum_fns.rs
 //@include lib/io_model.rs
@@ -16,5 +18,7 @@ global size_of usize == 8;
 //@include lib/greedy_spec.rs
 //@include lib/engine_fns.rs
 //@include lib/async_sig_fns.rs
+//@include lib/cli_fns.rs
+//@include lib/cli_run_fns.rs
 }
 fn main() {}
